@@ -32,6 +32,7 @@ func TestVerifC06(t *testing.T) {
 	if sh, _ := vh.Shard(); sh == 0 {
 		if srv, err := vServer(vBundledRoot); err == nil {
 			c06NonZeroStart(rep, srv)
+			c06StartNumberOffset(rep, srv)
 		}
 	}
 	job := 0
@@ -161,6 +162,41 @@ func c06NonZeroStart(rep *vh.Report, srv *Server) {
 					if lost > 0 {
 						rep.Violate("C06.b", "nonzero-start:segments-not-in-one-period:"+mode, fmt.Sprintf("start_%d periods_%d t=%d: %d of the %d segments of the single-period MPD are not in exactly one period of the multi-period MPD (which lists %d)", start, p, t, lost, len(ss), len(ms)),
 							map[string]any{"multi_url": mURL, "single_url": sURL})
+					}
+				}
+			}
+		}
+	}
+}
+
+// c06StartNumberOffset: with snr_K in $Number$ mode the number of the first segment of a period is K plus the number
+// of segment durations that fit before the period: the same segment has the same number as in single-period mode.
+func c06StartNumberOffset(rep *vh.Report, srv *Server) {
+	for _, snr := range []int64{0, 1, 5, 1000} {
+		for _, p := range []int{60, 120} {
+			for _, t := range []int64{1_001_000, 130_500} {
+				u := fmt.Sprintf("/livesim2/snr_%d/periods_%d/testpic_2s/Manifest.mpd?nowMS=%d", snr, p, t)
+				r := vGet(srv, u)
+				rep.AddExecs(1)
+				rep.AddStates(1)
+				rep.Hit("C06.b")
+				if r.Code != 200 {
+					continue
+				}
+				mm, err := vref.ParseMPD(r.Body)
+				if err != nil {
+					continue
+				}
+				for _, per := range mm.Periods {
+					for ai := range per.AS {
+						as := &per.AS[ai]
+						st := as.SegTemplate
+						if st == nil || st.Duration == nil || st.StartNumber == nil || st.PTO == nil || as.ContentType == "image" {
+							continue
+						}
+						if want := uint64(snr) + *st.PTO / *st.Duration; *st.StartNumber != want {
+							rep.Violate("C06.b", "number-period-offsets:snr", fmt.Sprintf("%s: Period %q %s: startNumber=%d, presentationTimeOffset=%d duration=%d with snr_%d: the segment at the period start has number %d in single-period mode", u, per.ID, as.ContentType, *st.StartNumber, *st.PTO, *st.Duration, snr, want), map[string]any{"url": u})
+						}
 					}
 				}
 			}
